@@ -381,7 +381,7 @@ def run_history(chk, binp, steps, salt, strace=False):
         if not real.kp.wait_at_gate(timeout=10):
             chk.broken.append({"kind": "harness", "name": "keeper start", "why": "no status request"})
             return
-        compare(chk, desc, -1, models[0], observe(real, 0.15), keys, cur_status_tid)
+        compare(chk, desc, -1, models[0], observe(real, 0.15), keys, cur_status_tid, more=lambda: observe(real, 0.25))
         for i, step in enumerate(steps):
             m = models[i + 1]
             kind = step[0]
@@ -404,7 +404,7 @@ def run_history(chk, binp, steps, salt, strace=False):
                     chk.disagreement("poll-did-not-finish", dict(desc, at=i), "iteration completes", "no next status request within 8 s")
                     return
                 obs = observe(real, 0.15)
-                compare(chk, desc, i, m, obs, keys, cur_status_tid)
+                compare(chk, desc, i, m, obs, keys, cur_status_tid, more=lambda: observe(real, 0.25))
                 check_key_dir(chk, desc, i, m, key_dir, keys)
                 st = keeper.parse_state(state)
                 real_cur = vlib.unhx(st.get("guid", "")).decode() if st.get("guid") not in (None, "-") else ""
@@ -421,7 +421,7 @@ def run_history(chk, binp, steps, salt, strace=False):
                 obs = observe(real, 0.05)
                 auth = [v for r in recs for n, v in r["headers"] if n.lower() == b"x-ms-azure-host-authorization"]
                 obs["upstreamAuth"] = [("auth", a.decode("latin-1")) for a in auth]
-                compare(chk, desc, i, m, obs, keys, cur_status_tid, only={"connLog", "upstreamAuth"})
+                compare(chk, desc, i, m, obs, keys, cur_status_tid, only={"connLog", "upstreamAuth"}, more=lambda: observe(real, 0.25))
                 for a in auth:
                     chk.count("signed_requests")
                     if not re.match(r"^Azure-HMAC-SHA256 \S+ [0-9a-f]{64}$", a.decode("latin-1")):
@@ -452,7 +452,7 @@ def run_history(chk, binp, steps, salt, strace=False):
                 c.close()
                 body = resp["body"] if resp else b""
                 real.client_bytes.append(repr(resp).encode())
-                compare(chk, desc, i, m, observe(real, 0.05), keys, cur_status_tid, only={"connLog"})
+                compare(chk, desc, i, m, observe(real, 0.05), keys, cur_status_tid, only={"connLog"}, more=lambda: observe(real, 0.25))
                 mm = re.search(rb"keyLatchStatus - ([^\r\n]*?)(?:\\r\\n|\r\n|\")", body)
                 if mm:
                     chk.count("provision_reply_with_key_latch_text")
@@ -473,7 +473,7 @@ def run_history(chk, binp, steps, salt, strace=False):
                     chk.count("status_json_unreadable")
             elif kind == "timeup":
                 real.st.ctl("prov call timeup")
-                compare(chk, desc, i, m, observe(real, 0.15), keys, cur_status_tid, only={"agentLog", "event"})
+                compare(chk, desc, i, m, observe(real, 0.15), keys, cur_status_tid, only={"agentLog", "event"}, more=lambda: observe(real, 0.25))
                 try:
                     tag = open(os.path.join(real.sd, "keys", "status.tag"), "rb").read()
                     chk.count("status_tag_read")
@@ -492,7 +492,7 @@ def run_history(chk, binp, steps, salt, strace=False):
                     chk.broken.append({"kind": "harness", "name": "keeper restart", "why": "no status request"})
                     return
                 # the model's `restart` is followed by `start`: compare the start-up section of the new process
-                compare(chk, desc, i, m, observe(real, 0.15), keys, cur_status_tid)
+                compare(chk, desc, i, m, observe(real, 0.15), keys, cur_status_tid, more=lambda: observe(real, 0.25))
             scan(chk, desc, i, real, keys)
         if keys:
             chk.case(nontrivial_key=("issued", len(keys), tuple(s[0] for s in steps)))
@@ -629,9 +629,24 @@ def observe(real, wait):
     return obs
 
 
-def compare(chk, desc, at, m, obs, keys, cur_status_tid, only=None):
+def compare(chk, desc, at, m, obs, keys, cur_status_tid, only=None, more=None):
     """model emissions vs classified real lines, per sink, as ordered lists of statements; and which guid each carries"""
     sinks = ["agentLog", "connLog", "console", "event", "upstreamAuth"]
+    if more is not None:
+        # the sinks are written by other tasks (file loggers, the event flush): what the model expects and is not there yet is waited
+        # for a little longer (1.5 s at most) - the next step has not run, so nothing that belongs to it can turn up meanwhile
+        for _ in range(6):
+            lacking = [k for k in sinks if (only is None or k in only) and k in obs
+                       and len([1 for s_, _t, _f in m["emits"] if s_ == k]) > len(obs[k])]
+            if not lacking:
+                break
+            for k, v in more().items():
+                if isinstance(v, list):
+                    obs.setdefault(k, [])
+                    obs[k] += v
+                else:
+                    obs[k] = obs.get(k, 0) + v
+            chk.count("emissions_waited_for")
     for sink in sinks:
         if only is not None and sink not in only:
             continue
